@@ -1,0 +1,130 @@
+//go:build verif
+
+package http2
+
+// Contracts for the deductive verifier in /verif (govc): the priority-tree walk of the RFC 7540
+// write scheduler (property C12). Compiled only with -tags verif; adds no behaviour.
+
+// pnPtr names the pointer type for quantifiers.
+type pnPtr = *priorityNodeRFC7540
+
+// The link invariant of the priority tree at one node x, in six parts: no node is its own parent;
+// siblings form a doubly linked list under one parent; the kids pointer names the first sibling of
+// that list; a node without parent (the root, or a node taken out of the tree) has no siblings.
+
+//@ pure
+func pnWF1(x *priorityNodeRFC7540) bool { return x.parent != x }
+
+//@ pure
+func pnWF2(x *priorityNodeRFC7540) bool {
+	return x.next == nil || (x.next.parent == x.parent && x.next.prev == x)
+}
+
+//@ pure
+func pnWF3(x *priorityNodeRFC7540) bool {
+	return x.prev == nil || (x.prev.parent == x.parent && x.prev.next == x)
+}
+
+//@ pure
+func pnWF4(x *priorityNodeRFC7540) bool {
+	return x.kids == nil || (x.kids.parent == x && x.kids.prev == nil)
+}
+
+//@ pure
+func pnWF5(x *priorityNodeRFC7540) bool {
+	return x.parent == nil || x.prev != nil || x.parent.kids == x
+}
+
+//@ pure
+func pnWF6(x *priorityNodeRFC7540) bool {
+	return x.parent != nil || (x.next == nil && x.prev == nil)
+}
+
+// setParent is executed (not abstracted) wherever it is called: small and loop-free.
+//
+//@ func (*priorityNodeRFC7540).setParent(n, parent)
+//@   inline
+
+// walkReadyInOrder (C12: Pop of the RFC 7540 scheduler offers every node of the tree to its callback
+// until one yields a frame). Partial, checked contract of the walk's mechanism; the recursive call
+// is reasoned about modularly (this contract is used at the two recursive call sites):
+//   - from every tree whose links satisfy pnWF1..6, the walk re-establishes pnWF1..6 for every node,
+//     also on the path that unlinks all kids of n, sorts them in the shared scratch slice *tmp and
+//     links them back (loops 3 and 4: every element of the scratch slice is a former kid, not nil
+//     and not n, so setParent never panics);
+//   - both loops that recurse (loop 2: kids of equal weight, loop 5: after sorting) start at the
+//     list head n.kids as it is when the loop is entered (ghost flags v2/v5: "no recursive call
+//     made yet" implies k == n.kids), pass exactly the current list element k and the same scratch
+//     slice to the recursive call, and advance along the next pointer of the element just visited,
+//     read AFTER the recursive call returned (step clauses); they end only when the list is
+//     exhausted (k == nil) or a visit reported true. Nothing read from *tmp survives a recursive
+//     call in this reasoning: the callee's contract leaves *tmp and its elements arbitrary
+//     (`havocs`), which is what sharing the scratch slice between recursion levels means.
+// The callback f is an unknown function: it is abstracted as changing the whole heap except the
+// four link fields of priority nodes, and that abstraction is checked on the call graph
+// (obligations keep.*: nothing reachable from a function value of f's type writes these fields).
+// Not stated: which nodes f is offered in terms of the tree as a set (needs an inductive notion of
+// subtree), the order produced by sort.Sort, that parent pointers are the same afterwards (needs
+// "sort.Sort loses no element" in a form the solvers did not decide), termination.
+//
+//@ func (*priorityNodeRFC7540).walkReadyInOrder(n, openParent, tmp, f) (r)
+//@   timeout 60
+//@   havoccalls except priorityNodeRFC7540.parent, priorityNodeRFC7540.kids, priorityNodeRFC7540.next, priorityNodeRFC7540.prev
+//@   havocs
+//@   allocates
+//@   requires n != nil && tmp != nil
+//@   requires forall x pnPtr :: x != nil ==> pnWF1(x)
+//@   requires forall x pnPtr :: x != nil ==> pnWF2(x)
+//@   requires forall x pnPtr :: x != nil ==> pnWF3(x)
+//@   requires forall x pnPtr :: x != nil ==> pnWF4(x)
+//@   requires forall x pnPtr :: x != nil ==> pnWF5(x)
+//@   requires forall x pnPtr :: x != nil ==> pnWF6(x)
+//@   ensures  forall x pnPtr :: x != nil ==> pnWF1(x)
+//@   ensures  forall x pnPtr :: x != nil ==> pnWF2(x)
+//@   ensures  forall x pnPtr :: x != nil ==> pnWF3(x)
+//@   ensures  forall x pnPtr :: x != nil ==> pnWF4(x)
+//@   ensures  forall x pnPtr :: x != nil ==> pnWF5(x)
+//@   ensures  forall x pnPtr :: x != nil ==> pnWF6(x)
+//@   ghost v2 += 1 at call walkReadyInOrder when !needSort && ghost(v2) == 0
+//@   ghost v5 += 1 at call walkReadyInOrder when needSort && ghost(v5) == 0
+//@   assert at call walkReadyInOrder#1: $n == k && $tmp == tmp
+//@   assert at call walkReadyInOrder#2: $n == k && $tmp == tmp
+//@   loop 1 invariant tmp != nil
+//@   loop 2 invariant tmp != nil
+//@   loop 2 invariant forall x pnPtr :: x != nil ==> pnWF1(x)
+//@   loop 2 invariant forall x pnPtr :: x != nil ==> pnWF2(x)
+//@   loop 2 invariant forall x pnPtr :: x != nil ==> pnWF3(x)
+//@   loop 2 invariant forall x pnPtr :: x != nil ==> pnWF4(x)
+//@   loop 2 invariant forall x pnPtr :: x != nil ==> pnWF5(x)
+//@   loop 2 invariant forall x pnPtr :: x != nil ==> pnWF6(x)
+//@   loop 2 invariant 0 <= ghost(v2) && ghost(v2) <= 1 && (ghost(v2) == 0 ==> k == n.kids)
+//@   loop 2 step k == iterstart(k).next
+//@   loop 3 invariant tmp != nil
+//@   loop 3 invariant forall x pnPtr :: x != nil ==> pnWF1(x)
+//@   loop 3 invariant forall x pnPtr :: x != nil ==> pnWF2(x)
+//@   loop 3 invariant forall x pnPtr :: x != nil ==> pnWF3(x)
+//@   loop 3 invariant forall x pnPtr :: x != nil ==> pnWF4(x)
+//@   loop 3 invariant forall x pnPtr :: x != nil ==> pnWF5(x)
+//@   loop 3 invariant forall x pnPtr :: x != nil ==> pnWF6(x)
+//@   loop 3 invariant forall j int :: 0 <= j && j < len(*tmp) ==> (*tmp)[j] != nil
+//@   loop 3 invariant forall j int :: 0 <= j && j < len(*tmp) ==> (*tmp)[j] != n
+//@   loop 3 invariant forall j int :: 0 <= j && j < len(*tmp) ==> (*tmp)[j].parent == nil
+//@   loop 4 invariant tmp != nil && -1 <= i && i < len(*tmp)
+//@   loop 4 invariant forall x pnPtr :: x != nil ==> pnWF1(x)
+//@   loop 4 invariant forall x pnPtr :: x != nil ==> pnWF2(x)
+//@   loop 4 invariant forall x pnPtr :: x != nil ==> pnWF3(x)
+//@   loop 4 invariant forall x pnPtr :: x != nil ==> pnWF4(x)
+//@   loop 4 invariant forall x pnPtr :: x != nil ==> pnWF5(x)
+//@   loop 4 invariant forall x pnPtr :: x != nil ==> pnWF6(x)
+//@   loop 4 invariant seqeq(*tmp, atloop(*tmp))
+//@   loop 4 invariant atloop(forall j int :: 0 <= j && j < len(*tmp) ==> (*tmp)[j] != nil && (*tmp)[j] != n)
+//@   loop 5 invariant tmp != nil
+//@   loop 5 invariant forall x pnPtr :: x != nil ==> pnWF1(x)
+//@   loop 5 invariant forall x pnPtr :: x != nil ==> pnWF2(x)
+//@   loop 5 invariant forall x pnPtr :: x != nil ==> pnWF3(x)
+//@   loop 5 invariant forall x pnPtr :: x != nil ==> pnWF4(x)
+//@   loop 5 invariant forall x pnPtr :: x != nil ==> pnWF5(x)
+//@   loop 5 invariant forall x pnPtr :: x != nil ==> pnWF6(x)
+//@   loop 5 invariant 0 <= ghost(v5) && ghost(v5) <= 1 && (ghost(v5) == 0 ==> k == n.kids)
+//@   loop 5 step k == iterstart(k).next
+//@   noframe
